@@ -786,6 +786,14 @@ class TaggedOperation(Operation):
             return NotImplemented
         return TaggedOperation(sub_op, *self.tags)
 
+    def _with_rescoped_keys_(
+        self, path: tuple[str, ...], bindable_keys: frozenset[cirq.MeasurementKey]
+    ):
+        sub_op = protocols.with_rescoped_keys(self.sub_operation, path, bindable_keys)
+        if sub_op is self.sub_operation:
+            return self
+        return TaggedOperation(sub_op, *self.tags)
+
     def controlled_by(
         self,
         *control_qubits: cirq.Qid,
